@@ -126,7 +126,8 @@ MISSING = ['nope.lua', 'nope.p8', 'nope.p8.png', 'sub/nope.lua', 'l0.p8', 'dir.l
 CARTS_ROOT = 'home/.lexaloffle/pico-8/carts'
 # where the including cart lives (case['where']): the plain directory, a sub-folder of the PICO-8 carts folder, a
 # second plain copy used by the cases that load twice, and the plain directory reached through a symbolic link
-CART_DIR = {'c': 'c', 'carts': CARTS_ROOT + '/mygame', 'tw': 'c_tw', 'lnk': 'lnk'}
+CART_DIR = {'c': 'c', 'carts': CARTS_ROOT + '/mygame', 'tw': 'c_tw', 'lnk': 'lnk', 'wip': CARTS_ROOT + '_wip'}
+# ('wip': a sibling of the carts folder whose name merely begins with the folder's name - not inside it)
 
 
 def p8_file(code):
@@ -180,6 +181,7 @@ def sandbox():
         fsobs.write_file(os.path.join(S, CARTS_ROOT, name + '.p8'), p8_file(b'decoy_cart=1\n'))
     fsobs.write_file(os.path.join(S, CARTS_ROOT, 'sub', 'l0.lua'), b'decoy_sub=1\n')
     shutil.copytree(os.path.join(S, 'c'), os.path.join(S, CART_DIR['tw']))
+    shutil.copytree(os.path.join(S, 'c'), os.path.join(S, CART_DIR['wip']))
     os.symlink(os.path.join(S, 'c'), os.path.join(S, CART_DIR['lnk']))
     SB['root'], SB['content'] = S, content
     SB['view'] = None
@@ -199,7 +201,8 @@ def fs_view(S):
         from pico8.game.formatter.p8png import P8PNGFormatter
         files, carts = [], []
         walk = list(os.walk(os.path.join(S, 'c'))) + list(os.walk(os.path.join(S, CARTS_ROOT))) + \
-            list(os.walk(os.path.join(S, CART_DIR['tw']))) + list(os.walk(os.path.join(S, CART_DIR['lnk'])))
+            list(os.walk(os.path.join(S, CART_DIR['tw']))) + list(os.walk(os.path.join(S, CART_DIR['lnk']))) + \
+            list(os.walk(os.path.join(S, CART_DIR['wip'])))
         for root, _, fs in walk:
             for f in sorted(fs):
                 if f == 'host.p8':
@@ -220,6 +223,8 @@ def fs_view(S):
                             rel = os.path.relpath(full, os.path.join(S, CART_DIR['tw']))
                         elif full.startswith(os.path.join(S, CART_DIR['lnk']) + '/'):
                             rel = os.path.relpath(full, os.path.join(S, CART_DIR['lnk']))
+                        elif full.startswith(os.path.join(S, CART_DIR['wip']) + '/'):
+                            rel = os.path.relpath(full, os.path.join(S, CART_DIR['wip']))
                         elif not full.startswith(os.path.join(S, 'c') + '/'):
                             rel = None                    # a decoy
                         if rel in SB['content']:
@@ -352,6 +357,8 @@ def generate(tier, rng):
             c['twice'] = 1
         elif i % 8 == 5:
             c['where'] = 'lnk'         # the cart's directory is reached through a symbolic link
+        elif i % 16 == 2:
+            c['where'] = 'wip'         # a sibling of the carts folder whose name begins with the folder's name
         yield c
 
 
@@ -394,6 +401,8 @@ def corpus_cases():
     yield {'kind': 'load', 'host': ['a=1', '#include l0.lua', '#include sub/l0.lua', '#include t0.p8:1', '#include t1.p8.png', 'b=2'],
            'names': ['l0.lua', 'sub/l0.lua', 't0.p8', 't1.p8.png'], 'mode': 'abs', 'where': 'lnk'}
     yield {'kind': 'load', 'host': ['#include l1.lua'], 'names': ['l1.lua'], 'mode': 'relc', 'where': 'lnk'}
+    yield {'kind': 'load', 'host': ['a=1', '#include l0.lua', '#include sub/t0.p8:1', 'b=2'], 'names': ['l0.lua', 'sub/t0.p8'],
+           'mode': 'abs', 'where': 'wip'}
     # lone carriage returns in an included file
     yield {'kind': 'load', 'host': ['a=1', '#include l8.lua', '#include l9.lua', 'b=2'], 'names': ['l8.lua', 'l9.lua'], 'mode': 'abs'}
     yield {'kind': 'nofile', 'host': ['x=1', '#include l0.lua']}
